@@ -4,7 +4,7 @@ import YaegiVerif.Proofs.C03Block
 import YaegiVerif.Model.ConstClass
 /- C03: declarations with a declared integer type, both directions. The interpreter model has exactly the outcome of
    the specification wherever the initialiser reaches the assignment check as the constant the specification gives it:
-   untyped operator expressions (which stay untyped under the pushed-down type since 7973ebe), literals, unary
+   untyped operator expressions (which stay untyped under the pushed-down type since 3f5ccd5), literals, unary
    operators, parentheses, conversions. What is left out is an operator applied to *typed* operands under a declared
    type: the node takes the declared type before its operands are looked at (F03-18). -/
 namespace YaegiVerif.Proofs.C03
@@ -166,7 +166,7 @@ theorem typed_var_decl_exact (k : IKind) (e : CExpr) (hs : declShape e = true âˆ
     rw [hr, hg']; rfl
 
 /-- **`var c = e` at package level**, any expression of the integer fragment: exactly the outcome of the
-    specification (the value with its default type â€” `int32` for a rune constant since ebd86cd â€”, a compile error when
+    specification (the value with its default type â€” `int32` for a rune constant since b080dc4 â€”, a compile error when
     the constant does not fit its default type or `e` is rejected) -/
 theorem var_decl_exact (e : CExpr) (hi : intShape e = true) (hl : litBound e = true) :
     varDeclY F0 none e = Spec.declGo 0 none e := by
